@@ -81,6 +81,15 @@ def miri_token_job(pid, profile, tier, val="arc", quick_seeds=6, thorough_seeds=
             "threads=3", "ops_lo=4", "ops_hi=6"], "miri_seeds": T(tier, quick_seeds, thorough_seeds), "timeout": 1800}
 
 
+def miri_sb_jobs(pid, tier, write="all", quick_seeds=32, thorough_seeds=512):
+    """Store-buffering litmus under Miri's weak-memory emulation (wl_sb): shard i selects shape (flag / two containers), strategy, read flavour
+    and value type, so 32 consecutive seeds cover every combination once."""
+    n = T(tier, quick_seeds, thorough_seeds)
+    return [{"name": "%s.miri.sb" % pid, "flavour": "miri", "args": ["sb", "write=" + write, "rounds=%d" % T(tier, 3, 4)], "miri_seeds": n,
+             "miri_flags": ["-Zmiri-preemption-rate=0"], "timeout": 900},
+            {"name": "%s.miri.sb.preempt" % pid, "flavour": "miri", "args": ["sb", "write=" + write, "rounds=%d" % T(tier, 3, 4)], "miri_seeds": n // 2, "timeout": 900}]
+
+
 def plan_core(pid, profile, level_text, extra_jobs=None, required=WINDOW_PATHS, asan=True, memcheck=False):
     def jobs(tier, seed):
         js = [
@@ -200,6 +209,7 @@ def plan_c07():
 
 
 PLANS = {}
+PLANS["XSB"] = {"level": "exploration", "jobs": lambda tier, seed: miri_sb_jobs("XSB", tier), "rule": "dev", "evidence": lambda m, r: {"distinct_nontrivial": m["counters"].get("distinct_nontrivial", 0)}, "assumptions": [], "min_evaluations": {"quick": 1, "thorough": 1}, "text": "dev"}
 PLANS["C01"] = plan_core("C01", "c01", "ledger + sanitizers over scheduled executions", memcheck=True,
                          extra_jobs=lambda tier, seed: miri_race_jobs("C01", tier, [("a", "tp"), ("b", "tp"), ("c", "arc"), ("e", "arc")], 6, 256) + miri_min_jobs("C01", tier)
                          + [{"name": "C01.miri.reent", "flavour": "miri", "args": ["reent"], "miri_seeds": T(tier, 2, 16), "timeout": 900},
